@@ -102,6 +102,10 @@ def move_to_front(ctx):
         if not isinstance(m, FuncInfo) or not nm.startswith('_') or nm.startswith('__'):
             continue
         w, paths = paths_of(prog, m, recv=ci, model=PrivInl(prog))
+        # only the operation that *moves* links (it rewires the ring on some path); a plain lookup of the link (LRI does not
+        # reorder on a hit) is not concerned
+        if not any(o.kind == 'sub_store' and txt(o.val.slice) in ('PREV', 'NEXT') for p in paths for o in p.ops):
+            continue
         for p in paths:
             if p.kind != 'return' or p.outcome[1] is None:
                 continue
